@@ -1420,7 +1420,7 @@ def delta_streams(ctx, use_driver=True):
         delta_eval_case(ctx, gen_delta_case(rng), use_driver=use_driver)
     for _ in range(n):
         delta_reduce_case(ctx, use_driver=use_driver)
-    for _ in range(150 if ctx.tier == "quick" else 2500):
+    for _ in range(150 if ctx.tier == "quick" else 1500):
         delta_multi_case(ctx, use_driver=use_driver)
 
 
@@ -1845,9 +1845,259 @@ def check_mixture_case(ctx, c):
 
 
 def mixture_streams(ctx):
-    n = 200 if ctx.tier == "quick" else 4000
+    n = 200 if ctx.tier == "quick" else 2500
     for _ in range(n):
         check_mixture_case(ctx, gen_mixture_case(ctx.rng))
+
+
+# --------------------------------------------------------------------------------------
+# The MonteCarlo interpretation: histories of several Integrate / approximate calls on ONE instance
+# --------------------------------------------------------------------------------------
+
+def gen_mc_case(rng):
+    kind = rng.choice(["tensor", "tensor", "tensor", "gaussian", "mixture", "mixture"])
+    ni = {"tensor": rng.choice([2, 2, 3]), "gaussian": rng.choice([0, 1, 2]), "mixture": rng.choice([1, 2, 3])}[kind]
+    inames = ["i", "j", "k"][:ni]
+    isize = {n: rng.choice([1, 2, 2, 3]) for n in inames}
+    member = {n: "T" for n in inames}
+    if kind == "gaussian":
+        member = {n: "G" for n in inames}
+    if kind == "mixture":
+        member = {n: rng.choice(["T", "G", "both", "both"]) for n in inames}
+        if not any(v in ("T", "both") for v in member.values()):
+            member[inames[0]] = "both"
+    rshape = {} if kind == "tensor" else {"x": rng.choice([(), (2,)])}
+    reals = list(rshape)
+    t_vis = [n for n in inames if member[n] in ("T", "both")]
+    ncalls = rng.choice([2, 2, 3, 4])
+    calls = []
+    for t in range(ncalls):
+        if kind == "tensor":
+            S = sorted(rng.sample(inames, rng.randint(1, ni)))
+            f = rng.choice(["one", "one", "support", "holes", "rand", "approx"])
+        elif kind == "gaussian":
+            S = list(reals)
+            f = rng.choice(["one", "one", "x", "rand"])
+        else:
+            S = sorted(rng.sample(t_vis, rng.randint(0, len(t_vis))) + reals)
+            f = rng.choice(["one", "one", "support", "holes", "x", "rand"])
+        calls.append([S, f])
+    if kind != "gaussian" and rng.random() < 0.6 and len(t_vis) >= 2:
+        # a superset first, a strict subset (same measure, a former sampled variable now a batch input) later
+        calls[0][0] = sorted(t_vis + reals)
+        calls[-1][0] = sorted(rng.sample(t_vis, rng.randint(1, len(t_vis) - 1)) + reals)
+    if rng.random() < 0.5:
+        rng.shuffle(calls)
+    particles = rng.choice([0, 2, 2, 3])
+    collide = particles and inames and rng.random() < 0.15
+    return dict(kind=kind, isize=isize, member=member, rshape={k: list(v) for k, v in rshape.items()},
+                calls=calls, particles=particles, seed=rng.randrange(2 ** 31),
+                extra_si=(rng.choice(inames) if collide else None))
+
+
+MC_PY = """
+# replay for C14: a history of Integrate / approximate calls under ONE MonteCarlo instance, with injected
+# randomness; re-runs the harness' brute-force oracle (fv/harness/c14.py check_mc_case) on the recorded case
+import sys
+sys.path.insert(0, {verif!r})
+from fv.harness.c14 import replay_mc
+FAILS = replay_mc({case!r})
+"""
+
+
+def replay_mc(case):
+    from ..common import Ctx
+    ctx = Ctx("C14")
+    check_mc_case(ctx, dict(case))
+    for f in ctx.failures:
+        print(f.name, (f.witness or {}).get("problem", ""), "expected", f.expected, "got", f.got)
+    return bool(ctx.failures)
+
+
+def grid_eval(r, order):
+    """table(), falling back to point-wise substitution on the grid for results that stay lazy."""
+    t = table(r, order)
+    if t is not None:
+        return t
+    out = np.empty([k for _, k in order])
+    for idx in itertools.product(*[range(k) for _, k in order]):
+        v = r(**{n: int(i) for (n, _), i in zip(order, idx) if n in r.inputs})
+        if not isinstance(v, (Tensor, Number)) or v.inputs:
+            return None
+        out[idx] = float(np.asarray(v.data))
+    return out
+
+
+def check_mc_case(ctx, c):
+    from ..common import VERIF
+    from funsor.montecarlo import MonteCarlo
+    rs = np.random.RandomState(c["seed"])
+    kind, isize, member = c["kind"], c["isize"], c["member"]
+    rshape = {k: tuple(v) for k, v in c["rshape"].items()}
+    names = list(isize)
+    reals = list(rshape)
+    t_order = [n for n in names if member[n] in ("T", "both")]
+    g_ints = [n for n in names if member[n] in ("G", "both")]
+    py = MC_PY.format(verif=str(VERIF), case=c)
+    ctx.count(f"mc:kind:{kind}:calls={len(c['calls'])}")
+
+    def expand(arr, have):
+        arr = np.asarray(arr)
+        return arr.reshape([isize[n] if n in have else 1 for n in names])
+    tdata = logz = None
+    try:
+        parts = []
+        if kind != "gaussian":
+            tshape = tuple(isize[n] for n in t_order)
+            tdata = np.round(rs.standard_normal(tshape) * 4) / 4
+            tdata = np.where(rs.random_sample(tshape) < 0.25, -np.inf, tdata)
+            parts.append(Tensor(tdata, OrderedDict((n, Bint[isize[n]]) for n in t_order)))
+        if kind != "tensor":
+            dim = sum((int(np.prod(v)) if v else 1) for v in rshape.values())
+            gshape = tuple(isize[n] for n in g_ints)
+            P = rs.standard_normal(gshape + (dim, dim)) + 2.0 * np.eye(dim)
+            wv = rs.standard_normal(gshape + (dim,))
+            parts.append(Gaussian(wv, P, OrderedDict([(n, Bint[isize[n]]) for n in g_ints]
+                                                     + [(n, Reals[v] if v else Real) for n, v in rshape.items()])))
+            Lam = P @ np.swapaxes(P, -1, -2)
+            eta = (P @ wv[..., None])[..., 0]
+            logz = (0.5 * dim * math.log(2 * math.pi) - 0.5 * np.linalg.slogdet(Lam)[1]
+                    + 0.5 * (eta[..., None, :] @ np.linalg.solve(Lam, eta[..., None]))[..., 0, 0] - 0.5 * (wv ** 2).sum(-1))
+        m = parts[0] if len(parts) == 1 else parts[0] + parts[1]
+    except DECLINE as e:
+        ctx.count(f"mc:build-declined:{type(e).__name__}")
+        return
+    joint = np.zeros([isize[n] for n in names])
+    if tdata is not None:
+        joint = joint + expand(tdata, t_order)
+    if logz is not None:
+        joint = joint + expand(logz, g_ints)
+    si = OrderedDict()
+    if c["particles"]:
+        si["particle"] = Bint[c["particles"]]
+    if c["extra_si"]:
+        si[c["extra_si"]] = Bint[2]        # named like an input of the measure: must be ignored, not consumed
+    si_before = OrderedDict(si)
+    eff_si = [(n, int(d.size)) for n, d in si.items() if n not in m.inputs]
+
+    def integrand(fk, S):
+        if fk in ("one", "approx"):
+            return Number(1.0)
+        if fk in ("support", "holes") and tdata is not None:
+            ind = np.isfinite(tdata) if fk == "support" else ~np.isfinite(tdata)
+            return Tensor(ind.astype(np.float64), OrderedDict((n, Bint[isize[n]]) for n in t_order))
+        if fk == "x" and reals:
+            v = Variable("x", Reals[rshape["x"]] if rshape["x"] else Real)
+            return v.sum() if rshape["x"] else v
+        r2 = np.random.RandomState(c["seed"] + 13)
+        sub = [n for n in names if r2.random_sample() < 0.7] or names[:1]
+        if not sub:
+            return Number(2.0)
+        return Tensor(np.round(r2.standard_normal([isize[n] for n in sub]) * 2) / 2,
+                      OrderedDict((n, Bint[isize[n]]) for n in sub))
+
+    def one_call(mc, t, S, fk):
+        r1 = np.random.RandomState(c["seed"] + 101 * (t + 1))
+        with RandStub(rand_fn=lambda shape: np.clip(r1.random_sample(shape), 1e-6, 1 - 1e-6),
+                      randn_fn=lambda shape: r1.standard_normal(shape)), np.errstate(all="ignore"):
+            with mc:
+                if fk == "approx":
+                    return m.approximate(ops.logaddexp, m, frozenset(S))
+                return Integrate(m, integrand(fk, S), frozenset(S))
+
+    def observe(r, S, fk):
+        if fk == "approx":
+            r = r.reduce(ops.logaddexp, frozenset(S))
+        free = [n for n in names if n not in S]
+        order = eff_si + [(n, isize[n]) for n in free]
+        extra = set(r.inputs) - {n for n, _ in order}
+        with np.errstate(all="ignore"):
+            t = grid_eval(r, order) if not extra else None
+            if t is not None and fk == "approx":
+                t = np.exp(t)         # the approximation lives in log space
+        return order, extra, t
+
+    mc = MonteCarlo(**si)
+    results = []
+    for t, (S, fk) in enumerate(c["calls"]):
+        try:
+            r = one_call(mc, t, S, fk)
+        except DECLINE as e:
+            ctx.count(f"mc:declined:{type(e).__name__}")
+            results.append(None)
+            continue
+        results.append(r)
+    if OrderedDict(mc.sample_inputs) != si_before or si != si_before:
+        w = dict(c)
+        w["problem"] = "the sample_inputs of the MonteCarlo instance were modified by sampling"
+        ctx.fail("input", "C14.mc-sample-inputs", witness=w, expected=str(list(si_before)), got=str(list(mc.sample_inputs)),
+                 python=py)
+        return
+    checked = 0
+    for t, (S, fk) in enumerate(c["calls"]):
+        r = results[t]
+        if r is None:
+            continue
+        w = dict(c)
+        w["call"] = t
+        try:
+            order, extra, tab = observe(r, S, fk)
+        except DECLINE as e:
+            ctx.count(f"mc:observe-declined:{type(e).__name__}")
+            continue
+        free = [n for n in names if n not in S]
+        if extra:
+            w["problem"] = f"call {t} ({fk} over {S}): result has inputs {sorted(extra)} that were integrated out / are not inputs"
+            ctx.fail("input", "C14.mc-inputs", witness=w, expected=str([n for n, _ in order]), got=str(sorted(r.inputs)),
+                     python=py)
+            return
+        if fk in ("one", "approx", "support", "holes"):
+            # the mass depends on every free integer input and the result is batched over every sample input
+            if fk != "holes" and [n for n, _ in eff_si if n not in r.inputs]:
+                w["problem"] = f"call {t} ({fk} over {S}): sample inputs missing from the result"
+                ctx.fail("input", "C14.mc-inputs", witness=w, expected=str([n for n, _ in order]),
+                         got=str(sorted(r.inputs)), python=py)
+                return
+        if tab is None:
+            ctx.count("mc:lazy-result")
+            continue
+        if fk in ("one", "approx", "support", "holes"):
+            axes = tuple(k for k, n in enumerate(names) if n in S)
+            with np.errstate(all="ignore"):
+                mass = np.exp(joint).sum(axis=axes) if axes else np.exp(joint)
+            want = np.zeros_like(mass) if fk == "holes" else mass
+            want_b = np.broadcast_to(want, tab.shape)
+            if fk == "approx" and np.isnan(tab[want_b == 0]).any():
+                # sample + model - guide is (-inf) - (-inf) on a slice of zero mass: not a value, nothing to compare
+                ctx.count("mc:approx-nan-on-zero-mass-slice")
+                tab = np.where((want_b == 0) & np.isnan(tab), 0.0, tab)
+            if not np.allclose(tab, want_b, rtol=1e-7, atol=1e-12):
+                w["problem"] = (f"call {t} of the history: Integrate/approximate of the measure with integrand '{fk}' over {S}: "
+                                f"mass per particle and per value of {free}")
+                ctx.fail("input", "C14.mc-mass" if fk != "holes" else "C14.mc-support", witness=w,
+                         expected=str(want.tolist()), got=str(tab.tolist()), python=py)
+                return
+        # history-independence: a fresh instance given the same random state returns the same value
+        try:
+            rf = one_call(MonteCarlo(**si), t, S, fk)
+            _, extra_f, tab_f = observe(rf, S, fk)
+        except DECLINE:
+            continue
+        if tab_f is not None and not extra_f and not np.array_equal(np.nan_to_num(tab, nan=0.0), np.nan_to_num(tab_f, nan=0.0)):
+            w["problem"] = (f"call {t} ({fk} over {S}) after {c['calls'][:t]} differs from the same call on a fresh "
+                            "MonteCarlo instance with the same random state")
+            ctx.fail("input", "C14.mc-history", witness=w, expected=str(tab_f.tolist()), got=str(tab.tolist()), python=py)
+            return
+        checked += 1
+    ctx.count("mc:calls-checked", checked)
+    ctx.case(sample={k: c[k] for k in ("kind", "isize", "member", "calls", "particles")},
+             nontrivial_key=("mc", str(c)) if checked >= 2 else None)
+
+
+def mc_streams(ctx):
+    n = 150 if ctx.tier == "quick" else 1500
+    for _ in range(n):
+        check_mc_case(ctx, gen_mc_case(ctx.rng))
 
 
 # --------------------------------------------------------------------------------------
@@ -1895,7 +2145,12 @@ def correspond(ctx):
         "numpy.random.randn stubbed.  Mixtures Tensor + Gaussian (Contraction._sample): 1-4 integer inputs each in the "
         "Tensor only / the Gaussian only / both, each sampled or not, 1-2 real inputs, every kind of sampled subset, "
         "0/2/3 particles; gate per particle and per value of the un-sampled integer inputs: mass over the sampled "
-        "variables (reals integrated) = sum over sampled ints of exp(T) * textbook Gaussian integral.  Non-trivial = a row with >= 2 positive cells (sample), domain size >= 2 "
+        "variables (reals integrated) = sum over sampled ints of exp(T) * textbook Gaussian integral.  MonteCarlo "
+        "interpretation: histories of 2-4 Integrate / approximate calls on ONE MonteCarlo instance with the same measure "
+        "object (Tensor with -inf cells / Gaussian / mixture), different reduced-variable subsets (superset then strict "
+        "subset and all orders) and integrands (1, indicator of the support, indicator of the -inf cells, random Tensor, x); "
+        "gates per call: inputs, mass per particle and batch element = brute force, support, sample_inputs not consumed, "
+        "equal to the same call on a fresh instance with the same random state.  Non-trivial = a row with >= 2 positive cells (sample), domain size >= 2 "
         "(Delta), >= 2 sampled dimensions or a conditioning block (Gaussian); distinct by full case content.")
     radix_box(ctx)
     sample_streams(ctx)
@@ -1903,6 +2158,7 @@ def correspond(ctx):
     delta_streams(ctx)
     gauss_streams(ctx)
     mixture_streams(ctx)
+    mc_streams(ctx)
     d = ctx.distribution
     tot = d.get("sample:fidelity-ok", 0) + d.get("sample:fidelity-differs", 0)
     ctx.extra["sample_model_fidelity"] = (d.get("sample:fidelity-ok", 0) / tot) if tot else None
@@ -1951,5 +2207,9 @@ def search(ctx, broken):
             return
     for _ in range(2500):
         check_mixture_case(ctx, gen_mixture_case(rng))
+        if found():
+            return
+    for _ in range(1500):
+        check_mc_case(ctx, gen_mc_case(rng))
         if found():
             return
